@@ -4,6 +4,8 @@ package props
 
 import (
 	"fmt"
+	"os"
+	"os/exec"
 	"runtime"
 	"runtime/debug"
 	"strings"
@@ -16,6 +18,23 @@ import (
 
 // Check is one registered property check.
 type Check func(r *ev.Run)
+
+// Fresh maps property ids to their "first call of a fresh process" operation
+// tables: Fresh[id](i) performs operation i and returns its result as text.
+// The check spawns one child process per operation (vcheck fresh <id> <i>), so
+// that each is the very first call into the library there - state that code
+// builds lazily on first use is then in every possible "not yet built" condition.
+var Fresh = map[string]func(i int) string{}
+
+// runFresh executes operation i of property id in a new process and returns
+// what it printed ("" and an error text when the child failed).
+func runFresh(id string, i int) (string, string) {
+	out, err := exec.Command(os.Args[0], "fresh", id, fmt.Sprint(i)).CombinedOutput()
+	if err != nil {
+		return "", fmt.Sprintf("child process failed: %v: %.200s", err, out)
+	}
+	return strings.TrimSpace(string(out)), ""
+}
 
 // Registry maps property ids to their in-process checks.
 var Registry = map[string]Check{}
